@@ -4,7 +4,8 @@
 (* values that contain the reserved shapes included to show that they are exactly the exclusion).  *)
 EXTENDS DagJson, CborValues, Json
 
-CONSTANTS Shard, NShards
+CONSTANTS Shard, NShards,
+          Deep      \* TRUE (thorough tier): also every pair of scalars in a list and every two-entry map over the full key set
 VARIABLE v
 vars == <<v>>
 
@@ -47,7 +48,8 @@ Weight(x) == Len(x.a) + Len(x.vs) * 3 +
              (LET F[i \in 0..Len(x.vs)] == IF i = 0 THEN 0 ELSE F[i - 1] + Weight(x.vs[i]) + (IF x.k = "map" THEN Len(x.ks[i]) ELSE 0)
               IN F[Len(x.vs)])
 
-Init == v \in {x \in JDomain : Weight(x) % NShards = Shard}
+JDomainDeep(dummy) == Lists(JScalars, 2) \cup Maps(JKeys, JSmall, 2) \cup {ListV(<<x>>) : x \in Maps(JKeysSmall, JTiny, 3)}
+Init == v \in {x \in (IF Deep THEN JDomain \cup JDomainDeep(0) ELSE JDomain) : Weight(x) % NShards = Shard}
 Next == UNCHANGED v
 Spec == Init /\ [][Next]_vars
 
